@@ -2,6 +2,7 @@
   C03 — A started resize finishes within ⌈L/R⌉ insertions and frees the old table.
 -/
 import GriddleModel.Props.C04
+import GriddleModel.Props.C08
 import GriddleModel.Lemmas.Steps
 namespace Griddle.C03
 
@@ -83,5 +84,18 @@ theorem finish_fits (c : Cfg) (t : Raw) (h : Inv c.R t) : ceilDiv (pending t) c.
     (`reserve_spec`), `try_grow` is only entered without an old table (`Raw.insert_spec`). -/
 theorem at_most_two_tables (t : Raw) : (if t.main.allocated then 1 else 0) + (if t.lo.isSome then 1 else 0) ≤ 2 := by
   split <;> split <;> omega
+
+/-- `clear()` leaves one table: whatever the phase — also when the old table had been emptied in
+    place and `len()` was already 0 — the old table is released. -/
+theorem clear_releases {R : Nat} (t : Raw) (h : Inv R t) :
+    (Raw.clear t).1.lo = none ∧ (Raw.clear t).1.ents = [] := ⟨(clear_spec t h).2.2.1, (clear_spec t h).2.1⟩
+
+/-- a dropped `drain()` likewise -/
+theorem drain_releases {R : Nat} (m : Map) (take : Nat) (forget : Bool) (o : Orc) (h : Inv R m) :
+    OkOr (Map.drain m take forget o) (fun r => r.1.lo = none) := by
+  have hs := C08.drain_leaves_empty m take forget o h
+  cases hr : Map.drain m take forget o with
+  | error f => rw [hr] at hs; exact hs
+  | ok r => rw [hr] at hs; simp only [OkOr] at hs ⊢; exact hs.2.2.1
 
 end Griddle.C03
